@@ -407,7 +407,13 @@ async def loosely_typed_case(ctx, nodes: dict, workdir: str, index: int) -> None
     from aiomysensors.persistence import Persistence
 
     path = os.path.join(workdir, "loose.json")
-    case = {"origin": {"kind": "loosely-typed", "index": index}, "registry": {k: repr(v) for k, v in nodes.items()}}
+    def safe_repr(obj) -> str:
+        try:
+            return repr(obj)
+        except Exception as exc:  # noqa: BLE001 - diagnostics only
+            return f"<repr failed: {type(exc).__name__}>"
+
+    case = {"origin": {"kind": "loosely-typed", "index": index}, "registry": {k: safe_repr(v) for k, v in nodes.items()}}
     ctx.case(("loose", index, repr(sorted(case["registry"].items()))), sample=None)
     try:
         await Persistence(nodes, path).save()
